@@ -36,6 +36,7 @@ MIN_REACH = {
     "identical_resows_accepted": {"quick": 5, "thorough": 20},
     "resows_after_a_cleaning_reap": {"quick": 20, "thorough": 50},
     "resows_of_farmer_crops": {"quick": 8, "thorough": 25},
+    "resows_after_the_farmer_changed_what_it_provides": {"quick": 5, "thorough": 20},
 }
 TIME_BUDGET = {"quick": 300, "thorough": 3000}
 
@@ -88,6 +89,10 @@ def cases(ctx):
                 # second use of the same Crop object: sow, grow, reap (which deletes the crop), sow again
                 yield {"resow": True, "n0": n0, "n1": n0 if rr.random() < 0.7 else n1, "mode": mode, "val": val, "reload": False,
                        "cases": rr.random() < 0.4, "after_reap": True}
+    for n0 in range(2, ctx.pick(12, 40)):
+        # the same Crop object of a farmer crop sown twice with the same number of settings
+        yield {"resow": True, "n0": n0, "n1": n0, "mode": ["num_batches", "batchsize"][n0 % 2], "val": 1 + n0 % 4, "reload": False,
+               "cases": n0 % 3 == 0, "farmer": True}
     rng = ctx.rng("sampled")
     for i in range(ctx.pick(250, 3000)):
         w = cropkit.gen_workload(rng, nmax=48, exotic=True)
@@ -178,6 +183,12 @@ def run_resow(ctx, case):
         with quiet():
             if not case["reload"]:
                 c2 = crop
+                if case.get("farmer") and case["n1"] == case["n0"]:
+                    # "tweaked a constant and sowed again" (documented as safe): the farmer now provides other values
+                    crop.farmer.constants = {"fc": 8}
+                    crop.farmer.resources = {"res_r": "r1"}
+                    fextra = {"fc": 8, "res_r": "r1"}
+                    ctx.count("resows_after_the_farmer_changed_what_it_provides")
             elif case.get("farmer"):
                 c2 = xyzpy.Crop(name="c7", parent_dir=tmp)          # the farmer comes back from the crop's own settings file
             else:
